@@ -224,7 +224,7 @@ inductive Out where
   | yielded (rest : List Op)
   | blocked
   | failed (e : FErr) (errFrame : Bool)
-  | panic                   -- host panic (stack.rs:457) when a thread that died in `error` is resumed again
+  | panic                   -- host panic (none reachable since /repo 4138eeb; kept for the old-rule witness)
   | nofuel
   deriving Repr, Inhabited
 
@@ -307,7 +307,7 @@ def runOps (d : Decls) : Nat → Nat → List Op → St → St × Out
   | fuel + 1, tid, .resume t :: rest, s =>
     match s.th t with
     | .done => runOps d fuel tid rest (s.emit ⟨tid, 12, t, 0⟩)          -- Error::Dead ⇒ Err
-    | .failed _ true => (s, .panic)                                        -- stack.rs:457 assert_pop: re-runs the `error` frame
+    | .failed _ true => runOps d fuel tid rest (s.emit ⟨tid, 11, t, 0⟩)   -- before /repo 4138eeb: host panic (stack.rs:457 assert_pop re-ran the `error` frame); now the failed run's frames are gone and resume answers Ok ()
     | .failed _ false => runOps d fuel tid rest (s.emit ⟨tid, 11, t, 0⟩)  -- top frame = `force` InPoll ⇒ execute returns ⇒ Ok ()
     | .blocked => runOps d fuel tid rest (s.emit ⟨tid, 11, t, 0⟩)        -- Pending ⇒ Ok ()
     | .ready ops =>
